@@ -158,6 +158,9 @@ func (r *runner) noteString(s string, n int64) {
 	if strings.HasSuffix(s, `\\`) {
 		r.fact("string:ends-with-two-backslashes")
 	}
+	if strings.Contains(s, `\n`) {
+		r.fact("string:has-backslash-then-letter")
+	}
 	if strings.ContainsAny(s, "()") {
 		r.fact("string:has-parenthesis")
 	}
@@ -166,6 +169,9 @@ func (r *runner) noteString(s string, n int64) {
 	}
 	if strings.Contains(s, "\n") {
 		r.fact("string:has-newline")
+	}
+	if strings.Contains(s, "\x01") {
+		r.fact("string:has-control-character")
 	}
 	if strings.Contains(s, "é") {
 		r.fact("string:has-non-ascii")
@@ -226,13 +232,13 @@ func (r *runner) body(s string, sh *shrinker) {
 		if strings.Contains(s, "@@") {
 			r.fact("text:double-at")
 		}
-		if strings.Contains(s, "@é") || strings.Contains(s, "@aé") {
+		if strings.Contains(s, "@é") || strings.Contains(s, "@né") {
 			r.fact("text:at-before-name-that-is-not-allowed")
 		}
 		if strings.HasSuffix(s, "@") {
 			r.fact("text:at-at-end")
 		}
-		if strings.Contains(s, "@.") || strings.Contains(s, "@ ") || strings.Contains(s, "@\"") {
+		if strings.Contains(s, "@.") || strings.Contains(s, "@\n") || strings.Contains(s, "@\"") {
 			r.fact("text:at-before-other-character")
 		}
 		if len(exprs) == 0 && exact {
@@ -508,8 +514,8 @@ func guards(r *mc.Result, tier string) []string {
 		}
 	}
 	for _, fact := range []string{
-		"string:empty", "string:has-quote", "string:has-backslash", "string:ends-with-backslash", "string:ends-with-two-backslashes", "string:has-parenthesis",
-		"string:has-at", "string:has-newline", "string:has-non-ascii", "string:has-non-bmp",
+		"string:empty", "string:has-quote", "string:has-backslash", "string:ends-with-backslash", "string:ends-with-two-backslashes", "string:has-backslash-then-letter", "string:has-parenthesis",
+		"string:has-at", "string:has-newline", "string:has-control-character", "string:has-non-ascii", "string:has-non-bmp",
 		"text:unclosed-expression", "text:identifier-evaluated", "text:identifier-fails", "text:expression-evaluated", "text:expression-fails",
 		"text:expression-with-string-literal-evaluated", "text:double-at", "text:at-before-name-that-is-not-allowed", "text:at-at-end", "text:at-before-other-character",
 		"pair:first-ends-with-backslash", "pair:second-ends-with-backslash", "pair:equal-nonempty", "pair:both-contain-quotes",
@@ -530,11 +536,11 @@ func init() {
 	mc.Register(&mc.Check{
 		ID:    "C12",
 		Level: "exploration",
-		Rule: "every string of length <= 6 (quick) / 7 (thorough) over the 11 characters {quote, backslash, (, ), @, a, space, newline, é, U+1F600, .} is (i) evaluated as template text by Evaluator.Template in a context binding a and compared with the statement's rule (reference function: `@@` -> `@`; `@(`..matching `)` and `@`+allowed name are expressions; any other `@` literal; where each expression's value comes from the real evaluator) and each expression the scanner cuts is checked against the parser's lexer for closedness; " +
-			"(ii) written with strconv.Quote into `@(Q)`, `x @(Q) y`, `@a@(Q)@a`, `@(Q)@(Q)`, `@(f(Q))`, `@(o[Q])` and expected to evaluate to exactly the string; (iii) every pair of strings of length <= 3 x <= 3 (quick) / <= 4 x <= 3 (thorough) is written into `@(Q & T)`, `@(Q = T)`, `@(f(Q, T))`. " +
+		Rule: "every string of length <= 6 (quick) / 7 (thorough) over the 11 characters {quote, backslash, (, ), @, n, U+0001, newline, é, U+1F600, .} is (i) evaluated as template text by Evaluator.Template in a context binding n and compared with the statement's rule (reference function: `@@` -> `@`; `@(`..matching `)` and `@`+allowed name are expressions; any other `@` literal; where each expression's value comes from the real evaluator) and each expression the scanner cuts is checked against the parser's lexer for closedness; " +
+			"(ii) written with strconv.Quote into `@(Q)`, `x @(Q) y`, `@n@(Q)@n`, `@(Q)@(Q)`, `@(f(Q))`, `@(o[Q])` and expected to evaluate to exactly the string; (iii) every pair of strings of length <= 3 x <= 3 (quick) / <= 4 x <= 3 (thorough) is written into `@(Q & T)`, `@(Q = T)`, `@(f(Q, T))`. " +
 			"evaluations = executed cases (string x position); distinct_nontrivial = cases whose string(s) contain at least one of quote, backslash, parenthesis, @ (every case is a different template).",
 		Assumptions: []string{
-			"bounded: alphabet and lengths as stated; allowed top-level names are a and f; one environment",
+			"bounded: alphabet and lengths as stated; allowed top-level names are n and f; one environment",
 			"'written as a quoted, escaped string literal' is read as Go's strconv.Quote, the form goflow itself prints literals in",
 			"text after an `@(` that is never closed is unspecified by the statement: only the output before it is compared",
 			"an expression that fails contributes nothing to the output (Evaluator.Template's documented behaviour); the body around it is still compared",
